@@ -110,7 +110,8 @@ def check(case):
     Jref = np.block([[ref.total_block(dudx, (ok, op), (wk, wp)) for (wk, wp, _) in wrts] for (ok, op, _) in ofs])
     scale = 1.0 + float(np.max(np.abs(u_ref))) if u_ref.size else 1.0
     utol = 1e-9 * max(1.0, cond) * scale
-    jtol = 1e-9 * max(1.0, cond) * (float(np.max(np.abs(Jref))) if Jref.size else 0.0) + 1e-11
+    jtol = 1e-9 * max(1.0, cond) * (float(np.max(np.abs(Jref))) if Jref.size else 0.0) + 1e-11 + \
+        8 * np.finfo(float).eps * max(1.0, cond) * (1.0 + ref.totals_scale(u_ref, ref.x0))   # round-off floor, see C01
     for (label, mode), (u, J, ins) in results.items():
         if not np.all(np.isfinite(u)):
             res.fail(tag(known, f"outputs-nonfinite-{label}"), f"{label}/{mode}")
